@@ -16,6 +16,7 @@ Ops (byte strings hex-encoded, `-` = empty):
   render fq fp ch uq f   -> hex            JName.render  (ch, uq: `-` = absent)
   parse s                -> nl | none | some fq fp ch uq file
   find top fqids name    -> none | some hex  findNode (the fqid found)
+  route top nodes s      -> nl | none | some fqid forkpos ch uq file   (nodes = `;`-separated `hexfqid:hexlist of fork names`)
   getfork names index    -> none | some i  getForkNew
   getforkold names index -> none | some i  getForkOld
 -/
@@ -97,6 +98,21 @@ def handle (op : String) (args : List String) : Option String :=
     match findNode top fqids name with
     | some i => pure s!"some {hexOfBytes (fqids.getD i [])}"
     | none => pure "none"
+  | "route", [top, nodes, s] => do
+    let top ← bytesOfHex top
+    let nodes ← (if nodes == "." then some [] else (nodes.splitOn ";").mapM fun nd =>
+      match nd.splitOn ":" with
+      | [fq, fs] => do
+        let fq ← bytesOfHex fq
+        let fs ← parseHexList fs
+        pure (⟨fq, fs⟩ : NodeM)
+      | _ => none)
+    let s ← bytesOfHex s
+    if s.contains cNL then pure "nl" else
+    match route top nodes s with
+    | none => pure "none"
+    | some (n, f, ch, uq, file) =>
+      pure s!"some {hexOfBytes ((nodes.getD n ⟨[], []⟩).fqid)} {f} {showOpt ch} {showOpt uq} {hexOfBytes file}"
   | "getforkold", [names, index] => do
     let names ← parseHexList names
     let index ← bytesOfHex index
